@@ -81,7 +81,7 @@ type Arg struct {
 	Kind  string `json:"kind"` // struct | map | kv
 	Rec   *Rec   `json:"rec,omitempty"`
 	KV    []KV   `json:"kv,omitempty"`
-	Spell string `json:"spell"` // db | field : spelling of map / key-value keys
+	Spell string `json:"spell"`         // db | field : spelling of map / key-value keys
 	Ptr   bool   `json:"ptr,omitempty"` // struct form passed as a pointer
 }
 type Cel struct {
@@ -104,18 +104,18 @@ type Fin struct {
 	// conditional rules: OnConflict.Where = (stored age < OCWhere) on DoUpdates/UpdateAll;
 	// OnConflict.TargetWhere = (age < OCTarget) in the conflict-target position (no effect on a
 	// non-partial key index)
-	OCWhere  *int64 `json:"oc_where,omitempty"`
-	OCTarget *int64 `json:"oc_target,omitempty"`
-	Inline []Cond   `json:"inline,omitempty"`
-	Vals   []Rec    `json:"vals,omitempty"` // save_slice: Save(&[]Acct{...}); create_oc_slice: Create(&[]Acct{...})
-	PtrPtr bool     `json:"ptrptr,omitempty"` // save: Save(&ptr)
-	CID    int64    `json:"cid,omitempty"`     // c_foc: Where(map{id, region})
-	CRegion string  `json:"cregion,omitempty"`
-	CAttrs *string  `json:"cattrs,omitempty"`  // c_foc: Attrs(map{note})
-	CAssign *int64  `json:"cassign,omitempty"` // c_foc: Assign(map{qty})
-	Batch  int      `json:"batch,omitempty"`  // create_oc_slice: CreateInBatches(&slice, n); 0 = Create(&slice)
-	Omits  []string `json:"omits,omitempty"` // save_omit: Omit(cols...).Save(&v), columns in either spelling
-	OmitSpell string `json:"omit_spell,omitempty"` // db | field
+	OCWhere   *int64   `json:"oc_where,omitempty"`
+	OCTarget  *int64   `json:"oc_target,omitempty"`
+	Inline    []Cond   `json:"inline,omitempty"`
+	Vals      []Rec    `json:"vals,omitempty"`   // save_slice: Save(&[]Acct{...}); create_oc_slice: Create(&[]Acct{...})
+	PtrPtr    bool     `json:"ptrptr,omitempty"` // save: Save(&ptr)
+	CID       int64    `json:"cid,omitempty"`    // c_foc: Where(map{id, region})
+	CRegion   string   `json:"cregion,omitempty"`
+	CAttrs    *string  `json:"cattrs,omitempty"`     // c_foc: Attrs(map{note})
+	CAssign   *int64   `json:"cassign,omitempty"`    // c_foc: Assign(map{qty})
+	Batch     int      `json:"batch,omitempty"`      // create_oc_slice: CreateInBatches(&slice, n); 0 = Create(&slice)
+	Omits     []string `json:"omits,omitempty"`      // save_omit: Omit(cols...).Save(&v), columns in either spelling
+	OmitSpell string   `json:"omit_spell,omitempty"` // db | field
 }
 type Input struct {
 	Tbl      []Rec `json:"tbl"`
@@ -438,6 +438,8 @@ func run(e *env, in Input) Obs {
 			} else {
 				tx = tx.Where(a[0], a[1:]...)
 			}
+		case "unscoped":
+			tx = tx.Unscoped()
 		case "attrs":
 			tx = tx.Attrs(argList(c.Args)...)
 		case "assign":
@@ -638,6 +640,8 @@ func gCel(c Cel) string {
 	switch c.Kind {
 	case "where":
 		return lib.App("EWhere", gCond(*c.Cond))
+	case "unscoped":
+		return "(EWhere CUnscoped)"
 	case "attrs":
 		return lib.App("EAttrs", lib.ListOf(c.Args, gArg))
 	case "assign":
@@ -1106,7 +1110,30 @@ func genStep(r *lib.Rng, state []Rec, now int64, edge, known bool) Input {
 		if r.Chance(1, 2) || known {
 			els = append(els, Cel{Kind: "attrs", Args: genArgs(r, edge)})
 		}
-		if r.Chance(2, 5) || (known && r.Bool()) {
+		// Unscoped() somewhere in the chain (1 in 4): soft-deleted rows are matches too; the conditions are then
+		// aimed at a soft-deleted row most of the time and an Assign is more likely (the found row is updated)
+		unsc := !known && r.Chance(1, 4)
+		if unsc {
+			var gone []Rec
+			for _, row := range state {
+				if row.Del != nil {
+					gone = append(gone, row)
+				}
+			}
+			if len(gone) > 0 && r.Chance(3, 4) {
+				c := genCond(r, gone, false)
+				for c.Kind == "agegt" {
+					c = genCond(r, gone, false)
+				}
+				if len(els) > 0 && r.Bool() {
+					els[0] = Cel{Kind: "where", Cond: &c}
+				} else {
+					els = append(els, Cel{Kind: "where", Cond: &c})
+				}
+			}
+			els = append(els, Cel{Kind: "unscoped"})
+		}
+		if r.Chance(2, 5) || (known && r.Bool()) || (unsc && r.Bool()) {
 			els = append(els, Cel{Kind: "assign", Args: genArgs(r, edge)})
 		}
 		lib.Shuffle(r, els)
@@ -1360,6 +1387,8 @@ func shape(in Input, o Obs) string {
 				sb.WriteString(a.Kind[:1])
 			}
 			sb.WriteString(")")
+		case "unscoped":
+			sb.WriteString("U")
 		case "session":
 			sb.WriteString("S")
 		case "ctx":
@@ -1453,6 +1482,16 @@ func main() {
 			}
 			if c.Kind == "where" {
 				out.Count("cond_form", c.Cond.Kind)
+			}
+			if c.Kind == "unscoped" {
+				what := "no match"
+				if o.RA > 0 || (in.Fin.Kind == "foc" && o.Writes == 0) {
+					what = "match"
+					if o.Ret.Del != nil {
+						what = "soft-deleted match"
+					}
+				}
+				out.Count("unscoped_chain", in.Fin.Kind+": "+what)
 			}
 		}
 		out.Count("session_elements", fmt.Sprint(ns))
